@@ -74,7 +74,7 @@ def run(rep):
     rep.assumptions += ['the zarrs Array is the environment: store_chunk(indices, values) writes one whole chunk at chunk-grid position `indices`; store_chunk_subset(indices, subset, values) writes `subset` relative to that chunk; store_array_subset(subset, values) writes at absolute array coordinates; the chunk size of the draw axis equals the buffer size (full_at)',
                         'one chain, one variable; the per-variable buffers are independent']
     rep.outside += ['zarrs I/O, codecs, file system, crash consistency of the store itself', 'the async copy of store_zarr_chunk and the task that queues a write (queue_write)', 'finalisation trimming of event arrays']
-    parts(rep, [lambda: scripts(rep, mir, L, maxlen), lambda: async_flush(rep, mir, L), lambda: sync_chain_storage(rep, mir, L), lambda: native_zarr(rep)])
+    parts(rep, [lambda: scripts(rep, mir, L, maxlen), lambda: async_flush(rep, mir, L), lambda: async_queue(rep, mir, L), lambda: sync_chain_storage(rep, mir, L), lambda: native_zarr(rep)])
 
 def scripts(rep, mir, L, maxlen):
     new = mir.method('SampleBuffer', None, 'new'); push = mir.method('SampleBuffer', None, 'push'); reset = mir.method('SampleBuffer', None, 'reset')
@@ -155,15 +155,10 @@ def scripts(rep, mir, L, maxlen):
     rep.sample({'value kinds': ['U64', 'String', 'F64x2'], 'chunk sizes': [1, 2, 3, 4], 'max script length': maxlen, 'script prefixes': nscripts})
 
 
-def async_flush(rep, mir, L):
-    """the async backend's ZarrAsyncChainStorage::flush, including its `async` block (the state machine rustc generates for it, driven by
-    block_on): when flush returns Ok no queued chunk write is still pending and none of them failed; a failing partial-chunk write or a
-    failing / panicked queued write makes flush return Err.  tokio's Mutex, JoinSet and Handle::block_on are the environment."""
+def _install_tokio(vm, mir, MAXPEND):
+    """tokio as environment: Mutex::lock / JoinSet::join_next futures answer Ready or (a bounded number of times) Pending, block_on drives the
+    coroutine state machine of an async block until Ready; m.ghost['pending'] counts queued writes, each reaped write succeeded / failed / panicked"""
     from ..vm import Coro
-    fns = [f for n, f in mir.fns.items() if re.search(r'async_impl::<impl at src/storage/zarr/async_impl.rs:\d+:1: \d+:\d+>::flush$', n)]
-    if len(fns) != 1: rep.unknown('C15.B async flush not found in the MIR'); return
-    fn = fns[0].parse(); A = RealAlg(); vm = VM(mir, A); install_misc(vm); vm.loop_bound = 64; vm.max_stmts = 5000000
-    MAXPEND = 2        # each future may answer Pending this many times over the whole run
     def ev(m): return [e[0] for e in m.ghost['events']]
     def context(vm, m, c, a):
         v = a[0]
@@ -216,6 +211,19 @@ def async_flush(rep, mir, L):
         return outs
     vm.add_model(r'^JoinSet::<.*>::try_join_next$', try_join_next)
     vm.add_model(r'^JoinSet::<.*>::(len|is_empty)$', lambda vm, m, c, a: ret(m, m.ghost['pending'] if c.endswith('len') else m.ghost['pending'] == 0))
+
+    return ev
+
+def async_flush(rep, mir, L):
+    """the async backend's ZarrAsyncChainStorage::flush, including its `async` block (the state machine rustc generates for it, driven by
+    block_on): when flush returns Ok no queued chunk write is still pending and none of them failed; a failing partial-chunk write or a
+    failing / panicked queued write makes flush return Err.  tokio's Mutex, JoinSet and Handle::block_on are the environment."""
+    from ..vm import Coro
+    fns = [f for n, f in mir.fns.items() if re.search(r'async_impl::<impl at src/storage/zarr/async_impl.rs:\d+:1: \d+:\d+>::flush$', n)]
+    if len(fns) != 1: rep.unknown('C15.B async flush not found in the MIR'); return
+    fn = fns[0].parse(); A = RealAlg(); vm = VM(mir, A); install_misc(vm); vm.loop_bound = 64; vm.max_stmts = 5000000
+    MAXPEND = 2        # each future may answer Pending this many times over the whole run
+    ev = _install_tokio(vm, mir, MAXPEND)
     def copy_as_chunk(vm, m, c, a):
         b = deref_val(vm, m, a[0]); return ret(m, SOME(Struct((b.f[0],), 'Chunk')) if b.f[1] else NONE())
     vm.add_model(r'^SampleBuffer::copy_as_chunk$', copy_as_chunk)     # the real function is decided by the script queries above
@@ -340,3 +348,49 @@ def native_zarr(rep):
     if bad: rep.validation_mismatch += bad; rep.errors.append('C15.V the real sync Zarr backend and the HashMap backend disagree after finalisation: %s' % str(bad[0])[:300])
     else: rep.notes.append('C15.V %d recorded draws (2 chains, %d (chunk, tune, draws) cases) read back identically from the real sync Zarr backend and the HashMap backend' % (n, len(cases)))
     rep.cover('C15.V native Zarr-vs-HashMap comparison ran', n > 0)
+
+
+def async_queue(rep, mir, L):
+    """queue_write (async backend: what push does with a full chunk) including its spawned async block: the chunk is put on the write queue exactly once
+    and only after the queue has been drained below max_queued_writes; a failed or panicked earlier write surfaces as Err of this call (it is
+    not lost); Ok means the chunk was queued."""
+    from ..vm import Coro
+    fns = [f for n, f in mir.fns.items() if n == 'queue_write']
+    if len(fns) != 1: rep.unknown('C15.B2 queue_write not found in the MIR'); return
+    fn = fns[0].parse(); A = RealAlg(); vm = VM(mir, A); install_misc(vm); vm.loop_bound = 64; vm.max_stmts = 5000000
+    ev = _install_tokio(vm, mir, 1)
+    vm.add_model(r'^<Handle as Clone>::clone$', lambda vm, m, c, a: ret(m, Opaque('handle')))
+    vm.add_model(r'^<tokio::sync::MutexGuard<.*> as Deref>::deref$', lambda vm, m, c, a: ret(m, deref_val(vm, m, a[0]).f[0]))
+    vm.add_model(r'^Handle::spawn::<\{async block@', lambda vm, m, c, a: ret(m, Struct((a[1],), 'JoinHandle')))
+    def block_on_handle(vm, m, c, a):
+        """block_on(JoinHandle of the spawned task): the task runs to completion (our block_on model on its coroutine); Ok(result), or Err(JoinError) if it panicked"""
+        co = a[1].f[0]; outs = []
+        for (m2, k, v) in vm.call(m, 'Handle::block_on::<{async block@src/storage/zarr/async_impl.rs (spawned task)}>', [a[0], co]):
+            if k == 'ret': outs.append((m2, 'ret', OK(v)))
+            else: outs.append((m2, k, v))
+        return outs
+    vm.add_model(r'^Handle::block_on::<tokio::task::JoinHandle<', block_on_handle)
+    def spawn_on(vm, m, c, a):
+        m.ghost['pending'] += 1; m.ghost['maxq'] = max(m.ghost['maxq'], m.ghost['pending']); co = a[1]
+        m.log('events', ('spawn_on:%s:%s' % (getattr(co.f[0], 'tag', co.f[0]), getattr(co.f[1], 'tag', co.f[1])),)); return ret(m, Opaque('abort handle'))
+    vm.add_model(r'^JoinSet::<.*>::spawn_on::<', spawn_on)
+    t0 = time.time(); bad = {}; npaths = 0; seen = set()
+    for pending in (0, 1, 2, 3):
+        for maxq in (1, 2):
+            m = Machine(); m.ghost['events'] = []; m.ghost['pending'] = pending; m.ghost['maxq'] = 0; m.ghost['joinset'] = m.alloc(Opaque('JoinSet'))
+            outs = list(vm.exec_fn(m, fn, [Ref(m.alloc(Opaque('handle'))), Opaque('queue arc'), maxq, Opaque('the array'), Opaque('the chunk'), 0])); npaths += len(outs)
+            for (m2, k, v) in outs:
+                e = ev(m2); fail = [x for x in e if x in ('write:failed', 'write:panicked')]; sp = [x for x in e if x.startswith('spawn_on:')]
+                if k == 'panic': bad.setdefault('async.queue.panic', 'queue_write panics: %s (events %s)' % (str(v)[:100], e[-5:])); continue
+                seen.add((v.name, bool(fail)))
+                if v.name == 'Ok':
+                    if fail: bad.setdefault('async.queue.swallowed', 'queue_write returns Ok although an earlier queued write failed (%s): the failure is lost' % fail)
+                    if sp != ['spawn_on:the array:the chunk']: bad.setdefault('async.queue.lost', 'queue_write returns Ok but the chunk was not put on the queue exactly once with its own array (%s)' % sp)
+                    if m2.ghost['maxq'] > maxq: bad.setdefault('async.queue.bound', 'the queue grows to %d with max_queued_writes = %d' % (m2.ghost['maxq'], maxq))
+                else:
+                    if not fail: bad.setdefault('async.queue.spurious_err', 'queue_write returns Err although no write failed (events %s)' % e[-6:])
+                    if sp: bad.setdefault('async.queue.err_but_queued', 'queue_write reports Err but queued the chunk anyway')
+    rep.paths += npaths; rep.absorb_vm(vm)
+    for key, what in bad.items(): rep.violated('C15.B2 ' + key, key, what, model={})
+    if not bad: rep.holds('C15.B2 queue_write with its spawned async block (0..3 writes already queued, max_queued_writes 1..2, every completion outcome): Ok <=> the chunk was queued exactly once with its array after the queue was drained below the limit and no reaped write had failed; a failed or panicked earlier write makes the call return Err (%d paths)' % npaths, time.time() - t0)
+    rep.cover('C15.B2 queue_write: Ok and Err|fault both reachable', ('Ok', False) in seen and ('Err', True) in seen)
